@@ -103,14 +103,16 @@ def fisherRow {α} (nan zero : α) (isBad : α → Bool) (mp : Nat) (tryInt : Bo
     | .raises => flatRow zero mp nll zero
 
 /-- rank `r`: `fcn_list_proc` and the slice `[data_start:data_end]` of the stage-1 table, row by row; `none` where the
-Python raises (too few table rows → `IndexError` at `negloglike[i]`; an escaping retry; a table with fewer than 4 parameter
+Python raises (an EMPTY stage-1 table → `IndexError` in `load_loglike` on every rank, i.e. N = 0, known finding F18; too few
+table rows → `IndexError` at `negloglike[i]`; an escaping retry; a table with fewer than 4 parameter
 columns, which `test_all.main` never writes). -/
 def fisherRank {α φ} (nan zero : α) (isBad : α → Bool) (mp : Nat) (tryInt : Bool)
     (o1 o2 : φ → α × List α → Out (Conv α)) (fs : List φ) (table : List (α × List α)) (P r : Nat) : Option (List (Conv α)) :=
   let f := getFunctionsSlice fs P r
   let t := pySlice table (dataStart fs.length P r) (dataEnd fs.length P r)
   -- line 308 builds (and discards) an array from `deriv[:,0] … deriv[:,9]` on every rank: IndexError for fewer than 10 columns
-  if derivWidth mp < 10 then none
+  if table.isEmpty then none              -- `load_loglike`: `data[:,0]` on `atleast_2d` of an EMPTY stage-1 file (shape (1,0)): F18
+  else if derivWidth mp < 10 then none
   else if t.length < f.length then none
   else if (List.zip f t).any (fun p => fisherCrashes isBad tryInt p.2.1 (o1 p.1 p.2) (o2 p.1 p.2)) then none
   else some ((List.zip f t).map (fun p => fisherRow nan zero isBad mp tryInt p.2.1 (o1 p.1 p.2) (o2 p.1 p.2)))
